@@ -218,6 +218,26 @@ check('C05', 'exploration',
       'key comparisons of an operation, deviation bound 1-2) over a BFS state space, differential oracle',
       'E3+E4', 'DESIGN.md §4 C05')
 
+check('C16', 'exploration',
+      'C extension, AddressSanitizer + UBSan build with assertions, PYTHONMALLOC=malloc; keys and values are '
+      'instances of tracked classes the harness never keeps a strong reference to. For every reachable shape '
+      '(BFS; every state re-reached by replaying its history with FRESH objects) every operation of a '
+      'catalogue (every mutator incl. replace / setdefault / pop / update / in-place operators, lookups with '
+      'fresh probe objects, min/max, lazy sequences, iterators abandoned after p steps for every p, mutation '
+      'under a live iterator, set algebra and | & - with a second container of equal-but-distinct objects, '
+      'weighted forms, conflict merges with successor links, pickle / copy / deepcopy / __setstate__ incl. '
+      'states whose k-th item fails conversion, failing calls) is followed by an exact reference census: '
+      'sys.getrefcount of every tracked key / value and of every non-root node == number of container slots '
+      'owning it (recursive __getstate__ walk: leaf slots, separators, child / firstbucket / next links), no '
+      'unreferenced tracked object alive, everything dead once the containers are dropped; object-keyed '
+      'families additionally with key comparison n raising for EVERY n; plus a data-manager variant '
+      '(commit, sweep, reload, change, commit / abort / drop). Any sanitizer report aborts the worker and is '
+      'a violation.',
+      TB + ' Raw malloc blocks that leak without holding Python objects are not observed.',
+      'explicit-state BFS over the implementation under AddressSanitizer; exact reference-count ledger after '
+      'every transition; exhaustive single-fault enumeration over comparison indices', 'E1+E3',
+      'DESIGN.md §4 C16')
+
 PENDING = ['C%02d' % i for i in range(1, 20)]
 
 
